@@ -909,6 +909,14 @@ pub fn check_handles(session: &Session<'_>) {
                 4 => "invalidated",
                 _ => "inconsistent",
             };
+            if want == 4 {
+                // C05: after a fresh broker session every earlier handle reports invalidated
+                w.violate(
+                    "C05",
+                    format!("handle-not-invalidated-by-fresh-session/{kind}/got={}", n(got)),
+                    format!("handle of request tag {tag} reports {} although a fresh broker session has replaced the one it was issued in", n(got)),
+                );
+            }
             w.violate(
                 "C18",
                 format!("status/{kind}/got={},want={}", n(got), n(want)),
